@@ -228,6 +228,16 @@ Section Projection.
     have Hs1 : in_span X (mem sel) Xc by apply: in_span_ext Hs => i /=; rewrite orbF.
     split; [exact: Ho1|exact: Hs1|move=> j js; exact: (resid_col0 Ho1 Hs1)].
   Qed.
+
+  (* the warm-start guard `norm(X_current_[:, j]) > tolerance * (anything >= 0)` is quiet *)
+  Theorem warm_guard_quiet (tol : F) (sel : seq 'I_c) j (a : F) :
+    0 < tol -> pivots_ok tol X sel -> j \in sel -> 0 <= a ->
+    ~~ (tol * a < pivot_norm_mx (orth_fold_mx tol X sel) j).
+  Proof.
+    move=> tpos Hp js a0.
+    have [_ _ /(_ j js) H] := residual_is_projection tpos Hp.
+    by rewrite norm_formula /sqn H trmx0 mul0mx mxE sqrtr0 -leNgt mulr_ge0 // ltW.
+  Qed.
 End Projection.
 
 Section ProjectionUnique.
